@@ -32,6 +32,7 @@ type params struct {
 	Ooo    bool  // acknowledgements may be sent out of order
 	Bystander bool // a second, online subscriber holds a QoS 0 subscription to the same topic
 	Queue  int  // session queue capacity (0 = 16, more than any history needs); 1 makes publishes wait for room
+	Race   bool // alphabet includes "drop+publish": the connection is lost and a message published at the same moment
 	NoDrop bool // the subscriber stays connected (no drop / fault events): with a small queue nothing may be lost to capacity
 	Real   bool // the broker writes / reads through the real transport.BaseConn (buffered writer, flush timer) over the pipe
 }
@@ -405,6 +406,9 @@ func history(x *explore.X, pr params) {
 			if !pr.NoDrop {
 				evs = append(evs, "drop")
 			}
+			if pr.Race {
+				evs = append(evs, "drop+publish(q1)")
+			}
 			if pr.Faults {
 				evs = append(evs, "fail-next-write-before", "fail-next-write-after", "fail-next-read")
 			}
@@ -446,6 +450,18 @@ func history(x *explore.X, pr params) {
 			x.Note("ack")
 		case ev == "drop":
 			s.sub.Drop()
+			x.Note("fault")
+		case ev == "drop+publish(q1)":
+			// the broker learns of the lost connection and of a new message at the same moment: whichever way the two
+			// are interleaved the message fits into the session's queue and must not be lost
+			s.nmsg++
+			tag := fmt.Sprintf("m%d", s.nmsg)
+			s.tagQOS[tag] = 1
+			if s.subscribed {
+				s.expectTags[tag] = true
+			}
+			s.sub.Drop()
+			s.helper.Pub("t", tag, 1, false)
 			x.Note("fault")
 		case ev == "fail-next-write-before":
 			s.sub.BEnd.FailSend(1, env.FailBefore)
@@ -571,9 +587,11 @@ func runC08(r *report.Report) {
 		part(r, "w2-all-faults", params{Prop: "C08", Depth: 6, Window: 2, QOS: []int{0, 1, 2}, Faults: true, Ooo: true}, 0)
 		part(r, "w2-reordered", params{Prop: "C08", Depth: 4, Window: 2, QOS: []int{1, 2}, Faults: true}, 1)
 		part(r, "w1-bystander", params{Prop: "C08", Depth: 5, Window: 1, QOS: []int{1, 2}, Bystander: true}, 0)
+		part(r, "w2-loss-racing-publish", params{Prop: "C08", Depth: 2, Window: 2, QOS: []int{1}, Race: true}, 2)
 		part(r, "w2-drops-over-baseconn", params{Prop: "C08", Depth: 6, Window: 2, QOS: []int{1, 2}, Clean: true, Ooo: true, Real: true}, 0)
 	} else {
 		part(r, "w2-drops-over-baseconn", params{Prop: "C08", Depth: 7, Window: 2, QOS: []int{1, 2}, Clean: true, Ooo: true, Real: true}, 0)
+		part(r, "w2-loss-racing-publish", params{Prop: "C08", Depth: 3, Window: 2, QOS: []int{1, 2}, Race: true}, 2)
 		part(r, "w1-drops-over-baseconn-reordered", params{Prop: "C08", Depth: 4, Window: 1, QOS: []int{1, 2}, Real: true}, 1)
 		part(r, "w2-bystander", params{Prop: "C08", Depth: 7, Window: 2, QOS: []int{0, 1, 2}, Bystander: true, Faults: true}, 0)
 		part(r, "w1-all-faults", params{Prop: "C08", Depth: 8, Window: 1, QOS: []int{0, 1, 2}, Clean: true, Faults: true}, 0)
